@@ -126,7 +126,7 @@ theorem walkTrace_irrev_sorted (e : Env) (s : St) (lh : Int) (dest : Nat) :
   have hfin : (walk e s lh dest false).1.irrev = (walkCore e s lh dest false).1.irrev := by
     rw [walk_eq_core]
     split
-    · exact foldl_doTx_irrev' e lh s.pool _
+    · exact foldl_doTx_irrev' e lh (repostList e s) _
     · rfl
   have hcore : s.irrev ≤ (walkCore e s lh dest false).1.irrev := by
     unfold walkCore
